@@ -19,6 +19,8 @@ type Assumption struct {
 	Fact *Term
 	Why  string
 	Need string // included only when this symbol is in the query's cone
+	Node *node  // top-level node at which a path-conditional fact arose (nil: global)
+	Label string // id of the body assertion that established the fact
 }
 
 type Obligation struct {
@@ -32,10 +34,16 @@ type Obligation struct {
 	Src     string
 	Text    string
 	Exec    *Exec
+	Node    *node // top-level node of the obligation (nil: after the body)
 	// results
 	Res      SolveResult
 	smtText  string
 	relaxed  bool // quantified assumptions dropped (model search only)
+	near     bool // only quantified assumptions about values the goal mentions
+	lemmas   bool // of the quantified assumptions only those named by the clause's by= hints
+	By       []string
+	smtQF, smtNear, smtLemmas string
+	qfModel  string
 	RelaxedModel bool
 	Slow     bool
 	Reveal   []string
@@ -59,6 +67,7 @@ type Exec struct {
 	Fn    *ssa.Function
 	C     *Contract
 	Props []string
+	curNode *node // top-level node being executed
 
 	assumes  []Assumption
 	assumeIx map[[2]*Term]bool
@@ -104,7 +113,50 @@ func (x *Exec) assume(pc, fact *Term, why string) {
 		return
 	}
 	x.assumeIx[k] = true
-	x.assumes = append(x.assumes, Assumption{pc, fact, why, ""})
+	if pc.IsTrue() && os.Getenv("GOVC_NOBOUNDS") == "" {
+		noteBounds(fact)
+	}
+	x.assumes = append(x.assumes, Assumption{pc, fact, why, "", x.nodeFor(pc), ""})
+}
+
+// nodeFor: facts under a path condition belong to the node being executed; an
+// obligation can only depend on such facts from its own ancestors in the
+// loop-cut graph (unconditional facts may be memoised and stay global).
+func (x *Exec) nodeFor(pc *Term) *node {
+	if pc == nil || pc.IsTrue() {
+		return nil
+	}
+	return x.curNode
+}
+
+// ancestorOf: a == n or a reaches n.
+func ancestorOf(a, n *node) bool {
+	if a == n {
+		return true
+	}
+	if n.anc == nil {
+		n.anc = map[*node]bool{}
+		var walk func(m *node)
+		walk = func(m *node) {
+			for _, e := range m.Preds {
+				if !n.anc[e.From] {
+					n.anc[e.From] = true
+					walk(e.From)
+				}
+			}
+		}
+		walk(n)
+	}
+	return n.anc[a]
+}
+
+// assumeLabelled: a fact established by a body assertion with an id (usable in by= hints).
+func (x *Exec) assumeLabelled(pc, fact *Term, why, label string) {
+	n := len(x.assumes)
+	x.assume(pc, fact, why)
+	if len(x.assumes) > n {
+		x.assumes[len(x.assumes)-1].Label = label
+	}
 }
 
 func (x *Exec) assumeTrue(fact *Term) { x.assume(TTrue, fact, "type") }
@@ -120,7 +172,7 @@ func (x *Exec) assumeNeedPC(pc *Term, need string, fact *Term) {
 		return
 	}
 	x.assumeIx[k] = true
-	x.assumes = append(x.assumes, Assumption{pc, fact, "axiom", need})
+	x.assumes = append(x.assumes, Assumption{pc, fact, "axiom", need, x.nodeFor(pc), ""})
 }
 
 func (x *Exec) oblige(kind string, props []string, pc, goal *Term, pos token.Pos, text string) *Obligation {
@@ -134,7 +186,7 @@ func (x *Exec) oblige(kind string, props []string, pc, goal *Term, pos token.Pos
 	if props == nil {
 		props = x.Props
 	}
-	o := &Obligation{Name: name, Kind: kind, Func: x.Key, Props: props, PC: pc, Goal: goal, NAssume: len(x.assumes), Src: src, Text: text, Exec: x}
+	o := &Obligation{Name: name, Kind: kind, Func: x.Key, Props: props, PC: pc, Goal: goal, NAssume: len(x.assumes), Src: src, Text: text, Exec: x, Node: x.curNode}
 	x.obls = append(x.obls, o)
 	return o
 }
@@ -173,6 +225,7 @@ type node struct {
 	order  int
 	in     *State
 	outs   []*State // per successor index
+	anc    map[*node]bool
 }
 
 type edge struct {
@@ -202,6 +255,7 @@ type frame struct {
 	free   []Value
 	inlineDepth int
 	callSeq map[string]int
+	sites   map[string][]token.Pos // per site kind: positions in source order
 	defCtx map[ssa.Value][]*loopInfo
 	loopLets map[string]map[string]Value
 	loopHeads map[string]*State
@@ -212,6 +266,7 @@ type retState struct {
 	st  *State
 	res []Value
 	pos token.Pos
+	n   *node
 }
 
 // findLoops computes natural loops from back edges (target dominates source).
@@ -504,6 +559,7 @@ func (x *Exec) runBody(fn *ssa.Function, c *Contract, params, free []Value, st *
 	}
 	if inlineDepth == 0 {
 		x.topRets = f.rets
+		x.curNode = nil
 	}
 	out.defers = savedDefers
 	// locals of the callee are dead
@@ -517,6 +573,9 @@ func (x *Exec) runBody(fn *ssa.Function, c *Contract, params, free []Value, st *
 
 func (f *frame) runNode(n *node) {
 	x := f.x
+	if f.inlineDepth == 0 {
+		x.curNode = n
+	}
 	// incoming state
 	if n.in == nil {
 		var ins []*State
@@ -585,7 +644,7 @@ func (f *frame) runNode(n *node) {
 					}
 				}
 			}
-			f.rets = append(f.rets, retState{st, res, pos})
+			f.rets = append(f.rets, retState{st, res, pos, n})
 			return
 		case *ssa.Panic:
 			f.panicAt(i, n, st)
